@@ -12,7 +12,7 @@ Appendix A.5): the MMR over `n` leaves is the MMR over `n/2` paired leaves, plus
 * `authPathOf f n i`  the authentication path of leaf `i`: its siblings from the bottom up to (excluding) its peak
 * `foldBlk j v path`  hash `v`, the root of aligned block `j`, up along sibling digests (left/right by parity of `j`)
 * `succVerify`     reference verifier for successor proofs, `succPathsOf` the honest successor proof
-* `memberVerify`   reference verifier for membership proofs
+* `memberVerifyRef` reference verifier for membership proofs
 
 Core Lean only (used by the driver as oracle and by the theorems as right-hand side).
 -/
@@ -68,7 +68,7 @@ def foldBlk : (j : Nat) → D → List D → D
   | j, v, s :: ss => foldBlk (j/2) (if j % 2 = 0 then H v s else H s v) ss
 
 /-- reference verifier for a membership claim `(leaf index, leaf, peaks, leaf count, path)` -/
-def memberVerify [DecidableEq D] (path : List D) (i : Nat) (leaf : D) (pks : List D) (n : Nat) : Bool :=
+def memberVerifyRef [DecidableEq D] (path : List D) (i : Nat) (leaf : D) (pks : List D) (n : Nat) : Bool :=
   decide (i < n) && decide (pks.length = TF.popCount n) && decide (path.length = (locate n i).1) &&
     (pks[(locate n i).2.2]? == some (foldBlk H i leaf path))
 
@@ -95,5 +95,15 @@ def succVerify [DecidableEq D] (paths : List D) (oldCount : Nat) (oldPeaks : Lis
   decide (oldCount ≤ newCount) && decide (TF.popCount newCount = newPeaks.length) &&
     decide (TF.popCount oldCount = oldPeaks.length) &&
     succGo H newCount newPeaks oldPeaks (peakPos oldCount) paths
+
+/-! ### leaf lists through a history -/
+
+/-- point update of a leaf function (core Lean has no `Function.update`) -/
+def setLeaf (g : Nat → D) (i : Nat) (d : D) : Nat → D := fun j => if j = i then d else g j
+
+/-- apply a batch of `(index, new leaf)` assignments -/
+def setLeafs (g : Nat → D) : List (Nat × D) → Nat → D
+  | [] => g
+  | m :: ms => setLeafs (setLeaf g m.1 m.2) ms
 
 end TF.Spec.MmrE
